@@ -118,6 +118,74 @@ def params_of(x, acc=None):
     return acc
 
 
+USER_RS = '''/// User type that counts the hook calls (C22).
+#[derive(Debug, Clone, Default)]
+pub struct CntUser {
+    pub with_calls: isize,
+    pub take_calls: isize,
+    pub ext_calls: isize,
+    pub last_ext_len: isize,
+}
+
+impl User for CntUser {
+    type UserTerm = ();
+    type UserContext = ();
+
+    fn process_extension<E: Engine<Self>>(
+        mut state: State<Self, E>,
+        extension: &proto_vulcan::state::SMap<Self, E>,
+    ) -> proto_vulcan::state::SResult<Self, E> {
+        state.user_state.ext_calls += 1;
+        state.user_state.last_ext_len = extension.iter().count() as isize;
+        Ok(state)
+    }
+
+    fn with_constraint<E: Engine<Self>>(state: &mut State<Self, E>, _c: &Rc<dyn Constraint<Self, E>>) {
+        state.user_state.with_calls += 1;
+    }
+
+    fn take_constraint<E: Engine<Self>>(state: &mut State<Self, E>, _c: &Rc<dyn Constraint<Self, E>>) {
+        state.user_state.take_calls += 1;
+    }
+}
+
+pub type CE = DefaultEngine<CntUser>;
+pub type TC = LTerm<CntUser, CE>;
+pub type RC = proto_vulcan::lresult::LResult<CntUser, CE>;
+
+/// Probe goal: unifies `out` with [with - take - (constraints in the store), ext_calls, last_ext_len].
+#[derive(Debug)]
+pub struct Probe {
+    out: TC,
+}
+
+impl Solve<CntUser, CE> for Probe {
+    fn solve(&self, _solver: &Solver<CntUser, CE>, state: State<CntUser, CE>) -> Stream<CntUser, CE> {
+        let stored = state.cstore_ref().iter().count() as isize;
+        let balance = state.user_state.with_calls - state.user_state.take_calls - stored;
+        let rec: TC = LTerm::from_vec(vec![
+            LTerm::from(balance),
+            LTerm::from(state.user_state.ext_calls),
+            LTerm::from(state.user_state.last_ext_len),
+        ]);
+        // the probe itself must not disturb the counters: bind `out` directly
+        let mut state = state;
+        let target = state.smap_ref().walk(&self.out).clone();
+        if target.is_var() {
+            state.smap_to_mut().extend(target, rec);
+            Stream::unit(Box::new(state))
+        } else {
+            Stream::empty()
+        }
+    }
+}
+
+pub fn probe(out: TC) -> Goal<CntUser, CE> {
+    Goal::dynamic(Rc::new(Probe { out }))
+}
+
+'''
+
 PRELUDE = '''//! GENERATED by /verif/mirsym/prog.py -- program templates for mirsym (do not edit).
 #![allow(dead_code, unused_imports, unused_variables, unused_mut, non_snake_case)]
 use proto_vulcan::prelude::*;
@@ -162,6 +230,7 @@ impl Solve<TU, TE> for Succ {
     }
 }
 
+@@USER_RS@@
 pub fn succ(u: T, v: T) -> Goal<TU, TE> {
     Goal::dynamic(Rc::new(Succ { u, v, mode: 0 }))
 }
@@ -172,8 +241,13 @@ pub fn succ_head(u: T, v: T) -> Goal<TU, TE> {
 '''
 
 
+PRELUDE = PRELUDE.replace('@@USER_RS@@', USER_RS)
+
+
 def emit_fn(name, prog, nparams, extra=None):
     extra = extra or {}
+    if extra.get('user') == 'CntUser':
+        return emit_fn_user(name, prog, nparams, extra)
     args = ''.join('a%d: isize, ' % i for i in range(nparams))
     lets = ''.join('    let p%d: T = LTerm::from(a%d);\n' % (i, i) for i in range(nparams))
     lets += ''.join('    let %s: T = LTerm::var("%s");\n' % (v, v) for v in extra.get('vars', []))
@@ -193,6 +267,32 @@ pub fn %s(%slimit: usize) -> Vec<Vec<R>> {
     while out.len() < limit {
         match it.next() {
             Some(r) => out.push(vec![r.q]),
+            None => break,
+        }
+    }
+    out
+}
+''' % (name, args, lets, body)
+
+
+def emit_fn_user(name, prog, nparams, extra):
+    """Custom User type: `proto_vulcan_query!` is tied to DefaultUser, so the goal is built with
+    `proto_vulcan!` and run with an explicit Solver; answers are walk*(q) (not reified)."""
+    args = ''.join('a%d: isize, ' % i for i in range(nparams))
+    lets = ''.join('    let p%d: TC = LTerm::from(a%d);\n' % (i, i) for i in range(nparams))
+    body = ',\n        '.join(goal_src(g) for g in prog)
+    return '''
+pub fn %s(%slimit: usize) -> Vec<TC> {
+%s    let q: TC = LTerm::var("q");
+    let goal: Goal<CntUser, CE> = proto_vulcan!([
+        %s
+    ]);
+    let mut solver: Solver<CntUser, CE> = Solver::new((), false);
+    let mut stream = solver.start(&goal, State::new(CntUser::default()));
+    let mut out = vec![];
+    while out.len() < limit {
+        match solver.next(&mut stream) {
+            Some(st) => out.push(st.smap_ref().walk_star(&q)),
             None => break,
         }
     }
@@ -254,9 +354,10 @@ class RefFail(Exception):
 
 
 class RState(object):
-    __slots__ = ('s', 'd', 'fd')
+    __slots__ = ('s', 'd', 'fd', 'ext')
 
-    def __init__(self, s=None, d=None, fd=None):
+    def __init__(self, s=None, d=None, fd=None, ext=(0, 0)):
+        self.ext = ext            # (number of successful unifications so far, bindings added by the last one)
         self.s = s or {}
         self.d = d or []          # list of constraints; constraint = list of (u, v) pairs (a disjunction of u != v)
         self.fd = fd or ((), ())  # (domains: ((term, (values..)), ..), constraints: ((kind, (terms..)), ..))
@@ -272,6 +373,7 @@ class Ref(object):
         self.truncated = False
         self.infinite = False
         self.has_fd = False
+        self.track_ext = False
 
     def fresh(self, name='v'):
         self.counter += 1
@@ -376,7 +478,7 @@ class Ref(object):
             if not new:
                 return None               # all pairs are equal already: violated
             out.append(new)
-        return RState(st.s, out, st.fd)
+        return RState(st.s, out, st.fd, st.ext)
 
     # ---- goals: list of states in depth-first order ------------------------------------------
     def run(self, g, st, env, depth=0):
@@ -392,10 +494,10 @@ class Ref(object):
             s2 = self.unify(self.term(g[1], env), self.term(g[2], env), st.s)
             if s2 is None:
                 return []
-            st2 = self.recheck(RState(s2, st.d, st.fd))
+            st2 = self.recheck(RState(s2, st.d, st.fd, (st.ext[0] + 1, len(s2) - len(st.s))))
             return [st2] if st2 is not None else []
         if k == 'diseq':
-            st2 = self.recheck(RState(st.s, st.d + [[(self.term(g[1], env), self.term(g[2], env))]], st.fd))
+            st2 = self.recheck(RState(st.s, st.d + [[(self.term(g[1], env), self.term(g[2], env))]], st.fd, st.ext))
             return [st2] if st2 is not None else []
         if k in ('conj', 'dfs'):
             return self.run_conj(flat(g[1]), st, env, depth)
@@ -437,10 +539,10 @@ class Ref(object):
             else:
                 items = [target]
             self.has_fd = True
-            return [RState(st.s, st.d, (st.fd[0] + tuple((it, dom) for it in items), st.fd[1]))]
+            return [RState(st.s, st.d, (st.fd[0] + tuple((it, dom) for it in items), st.fd[1]), st.ext)]
         if k == 'rel' and g[1] in FD_RELS:
             self.has_fd = True
-            return [RState(st.s, st.d, (st.fd[0], st.fd[1] + ((g[1], tuple(self.term(a, env) for a in g[2])),)))]
+            return [RState(st.s, st.d, (st.fd[0], st.fd[1] + ((g[1], tuple(self.term(a, env) for a in g[2])),)), st.ext)]
         if k == 'rel':
             return self.run_rel(g[1], [self.term(a, env) for a in g[2]], st, depth)
         if k == 'closure':
@@ -508,11 +610,18 @@ class Ref(object):
         s2 = self.unify(a, b, st.s)
         if s2 is None:
             return []
-        st2 = self.recheck(RState(s2, st.d, st.fd))
+        st2 = self.recheck(RState(s2, st.d, st.fd, (st.ext[0] + 1, len(s2) - len(st.s))))
         return [st2] if st2 is not None else []
 
+    def eq_goal_raw(self, a, b, st):
+        """binding that is not a unification goal (does not count as an extension)"""
+        s2 = self.unify(a, b, st.s)
+        if s2 is None:
+            return []
+        return [RState(s2, st.d, st.fd, st.ext)]
+
     def ne_goal(self, a, b, st):
-        st2 = self.recheck(RState(st.s, st.d + [[(a, b)]], st.fd))
+        st2 = self.recheck(RState(st.s, st.d + [[(a, b)]], st.fd, st.ext))
         return [st2] if st2 is not None else []
 
     def run_rel(self, name, args, st, depth):
@@ -548,6 +657,10 @@ class Ref(object):
             return self.eq_goal(l, ('cons', self.fresh('h'), r), st)
         if name == 'empty':
             return self.eq_goal(args[0], ('nil',), st)
+        if name == 'probe':
+            # [hook balance (must be 0), number of process_extension calls, size of the last extension]
+            rec = ('cons', ('num', 0), ('cons', ('num', st.ext[0]), ('cons', ('num', st.ext[1]), ('nil',))))
+            return self.eq_goal_raw(args[0], rec, st)
         if name == 'succ_head':
             u, v = args
             if u[0] != 'cons':
@@ -647,7 +760,7 @@ class Ref(object):
                 s2[v] = ('num', n)
             if not all(self.fd_holds(kind, [self.walk_star(a, s2) for a in args]) for kind, args in cons):
                 continue
-            st2 = self.recheck(RState(s2, st.d, st.fd))
+            st2 = self.recheck(RState(s2, st.d, st.fd, st.ext))
             if st2 is None:
                 continue
             key = self.walk_star(q, s2)
@@ -738,7 +851,11 @@ def engine_answers(m, result, space=None):
     out = []
     rows = val(m, result)
     for row in rows.fields:
-        lres = val(m, val(m, row).fields[0])
+        rv = val(m, row)
+        if isinstance(rv, Adt) and rv.ty == 'LTerm':
+            out.append((conv(sp.view(rv)), [], []))      # plain walk*(q) of a manually driven solver
+            continue
+        lres = val(m, rv.fields[0])
         term = sp.view(lres.fields[0])
         cs, others = store_constraints(m, sp, lres.fields[1])
         out.append((conv(term), [[(conv(k), conv(v)) for k, v in c] for c in cs], others))
